@@ -19,8 +19,40 @@ def run(ctx, replay=None):
         else:
             cases = vc.corpus_cases('C01') + vc.gen_cases(ctx, 150 if not ctx.thorough() else 1500,
                                                           nmax=30 if not ctx.thorough() else 60)
+        rng = ctx.rng
         for case in cases:
+            if case.get('living'):
+                V = vc.build(dict(case, dist_func=case['living']['metric_before']))
+                _ = V.experimental, V.bin_count
+                V.set_dist_function(case['dist_func'])
+                vc.eval_structure_case(ctx, model, case, prop='C01', V=V)
+                continue
             vc.eval_structure_case(ctx, model, case, prop='C01')
+        # the same statement on living instances: after the metric was exchanged in place, groups, counts and semivariances
+        # belong to the distances and edges the instance now reports
+        nliving = 0
+        for case in cases:
+            if replay is not None or case.get('living') or nliving >= (25 if not ctx.thorough() else 250) or case.get('values2') is not None:
+                continue
+            if not (case.get('bins') is not None or rng.random() < 0.25):
+                continue
+            ml = case.get('maxlag')
+            if isinstance(ml, float) and ml >= 1:
+                continue          # absolute maxlag: truncated distances, the metric change is C11's subject
+            other = rng.choice([m for m in ('euclidean', 'cityblock', 'chebyshev') if m != case['dist_func']])
+            try:
+                V = vc.build(case)
+                _ = V.experimental, V.bin_count
+                if rng.random() < 0.5:
+                    V.set_dist_function(other)
+                else:
+                    V.dist_function = other
+            except Exception as e:
+                ctx.count('living_rejected', type(e).__name__)
+                continue
+            nliving += 1
+            ctx.count('living_instance', 'custom-edges' if case.get('bins') is not None else case['bin_func'])
+            vc.eval_structure_case(ctx, model, dict(case, dist_func=other, living={'metric_before': case['dist_func']}), prop='C01', V=V)
         # estimator functions against their exact Q models
         vc.check_estimators(ctx, model, 60 if not ctx.thorough() else 400)
         # in-Coq golden subset (same definitions the theorems speak about, no extraction)
